@@ -111,11 +111,11 @@ def _gen_block(np, r, i):
     j //= 8
     pat = j % 6
     if pat in (0, 1):
-        nrb, nel, nrf = int(r.integers(1, 4)), int(r.integers(1, 5)), int(r.integers(1, 3))
+        nrb, nel, nrf = int(r.integers(1, 6)), int(r.integers(1, 5)), int(r.integers(1, 6))
     elif pat == 2:
         nrb, nel, nrf = int(r.integers(1, 4)), int(r.integers(1, 6)), 0
     elif pat == 3:
-        nrb, nel, nrf = 0, int(r.integers(1, 6)), int(r.integers(1, 3))
+        nrb, nel, nrf = 0, int(r.integers(1, 6)), int(r.integers(1, 6))
     elif pat == 4:
         nrb, nel, nrf = 0, int(r.integers(1, 7)), 0
     else:
@@ -283,7 +283,14 @@ def _gen_block(np, r, i):
         rb_in, rbform = rb.copy(), "index"
     if rbform in ("list", "index") and len(rb) >= 2 and r.random() < 0.5:
         # an index vector is a set: its order must not matter (01de8f2)
-        pp = r.permutation(len(rb))
+        # half of the time keep the ends in place and shuffle the interior: such a vector has
+        # first == min, last == max and the right length, and still is not a range
+        if len(rb) >= 4 and r.random() < 0.5:
+            pp = np.concatenate([[0], 1 + r.permutation(len(rb) - 2), [len(rb) - 1]])
+            if np.all(np.diff(pp) == 1):
+                pp[1], pp[2] = pp[2], pp[1]
+        else:
+            pp = r.permutation(len(rb))
         rb_in = [int(rb[j]) for j in pp] if rbform == "list" else rb[pp].copy()
     q = int(r.integers(3))
     if nrf == 0:
@@ -296,6 +303,17 @@ def _gen_block(np, r, i):
         rf_in, rfform = [int(x) for x in rf], "list"
     else:
         rf_in, rfform = rf.copy(), "index"
+    if rfform in ("list", "index") and len(rf) >= 2 and r.random() < 0.5:
+        # an index vector is a set: an unsorted one must not be mistaken for a range
+        # half of the time keep the ends in place and shuffle the interior: such a vector has
+        # first == min, last == max and the right length, and still is not a range
+        if len(rf) >= 4 and r.random() < 0.5:
+            pp = np.concatenate([[0], 1 + r.permutation(len(rf) - 2), [len(rf) - 1]])
+            if np.all(np.diff(pp) == 1):
+                pp[1], pp[2] = pp[2], pp[1]
+        else:
+            pp = r.permutation(len(rf))
+        rf_in = [int(rf[j]) for j in pp] if rfform == "list" else rf[pp].copy()
     h = [None, 0.01, None][i % 3] if (i // 4) % 2 else [0.002, None, None][i % 3]
 
     res_hz = []
@@ -1040,9 +1058,22 @@ def run_block_case(sh, np, ode, i, tier):
             except Exception as e:
                 sh.violation("exception:fd-0hz", _case(s, "fd", False, "dva", False),
                              {"exc": repr(e)[:300]}, base_tags)
-    for (incrb, rfdo) in _option_sets(r, tier, i):
+    for nopt, (incrb, rfdo) in enumerate(_option_sets(r, tier, i)):
         key = "".join(sorted(incrb))
         sols = {}
+        if nopt == 1 and su_ok and s["h"] is not None and not s["cplx"]:
+            # history on one solver object: a time-domain solution between two frequency-
+            # domain ones (the two share the eigensolution in different forms); what
+            # follows is judged against the oracle like everything else
+            try:
+                with warnings.catch_warnings():
+                    warnings.simplefilter("ignore")
+                    with np.errstate(all="ignore"):
+                        su.tsolve(np.real(F[:, :1]) * np.ones((1, 4)))
+                sh.count("cell:history-fsolve-tsolve-fsolve")
+            except Exception as e:
+                sh.violation("exception:tsolve-between-fsolves", case0,
+                             {"exc": repr(e)[:300]}, base_tags)
         for solver, obj in (("su", su if su_ok else None), ("fd", fd)):
             if obj is None:
                 continue
